@@ -390,6 +390,8 @@ bool write_header(zckCtx *zck)
 /* comp/comp.c */
 bool comp_init(zckCtx *zck)
     ZCK_WARN_UNUSED;
+ssize_t end_chunk(zckCtx *zck, bool final)
+    ZCK_WARN_UNUSED;
 bool comp_close(zckCtx *zck)
     ZCK_WARN_UNUSED;
 bool comp_reset(zckCtx *zck)
